@@ -180,7 +180,8 @@ structure EntryOK (ntries : Nat) (k : KEntry) : Prop where
   mark : k.mark < 2 ^ 32
 
 structure Hyp (m : KMaps) (pk : PktK) (start : Nat) (tries : List (List Prefix)) (ubm : List Nat) : Prop where
-  lpm : ∀ idx (h : idx < tries.length), m.lpmAt (ringSlot start idx) = some (tries[idx].map cidrToKey)
+  lpm : ∀ idx (h : idx < tries.length), ∃ keys, m.lpmAt (ringSlot start idx) = some keys ∧
+    ∀ a, lpmLookup keys a = lpmLookup (tries[idx].map cidrToKey) a
   triesWF : ∀ t ∈ tries, ∀ p ∈ t, p.WF
   saddr : pk.saddr < 2 ^ 128
   daddr : pk.daddr < 2 ^ 128
@@ -207,9 +208,10 @@ theorem lpm_case (m : KMaps) (pk : PktK) (start : Nat) (tries : List (List Prefi
     matchLpm .little m ⟨mkS false false mu dns, r, di, db, dc⟩ ms probe =
       (⟨mkS (trieMatch tries[idx] probe) false mu dns, r, di, db, dc⟩, false) := by
   unfold matchLpm
-  rw [hms, H.lpm idx hidx]
+  obtain ⟨keys, hkeys, heq⟩ := H.lpm idx hidx
+  rw [hms, hkeys]
   simp only
-  rw [Props.kernel_userspace_same_set _ _ (H.triesWF _ (List.getElem_mem hidx)) hp]
+  rw [heq probe, Props.kernel_userspace_same_set _ _ (H.triesWF _ (List.getElem_mem hidx)) hp]
   rw [set_good_if]; simp
 
 theorem eval_spec (m : KMaps) (pk : PktK) (start : Nat) (tries : List (List Prefix)) (ubm : List Nat)
@@ -489,7 +491,8 @@ structure Installed (m : KMaps) (start : Nat) (kp : List KEntry) (tries : List (
   len : m.activeLen = kp.length
   bound : kp.length ≤ MaxMatchSetLen
   rules : ∀ i (h : i < kp.length), m.routing[i]? = some (encodeGo .little (kp[i].rewrite start))
-  lpm : ∀ idx (h : idx < tries.length), m.lpmAt (ringSlot start idx) = some (tries[idx].map cidrToKey)
+  lpm : ∀ idx (h : idx < tries.length), ∃ keys, m.lpmAt (ringSlot start idx) = some keys ∧
+    ∀ a, lpmLookup keys a = lpmLookup (tries[idx].map cidrToKey) a
 
 /-- Ranges of the packet fields (`route()`'s callers pass u8-sized words, 16-byte arrays). -/
 structure PktOK (pk : PktK) : Prop where
@@ -592,6 +595,7 @@ theorem installGen_installed (start : Nat) (kp : List KEntry) (tries : List (Lis
     rw [List.getElem?_append_left (by simpa using hi)]
     simp [hi]
   · intro idx hidx
+    refine ⟨tries[idx].map cidrToKey, ?_, fun _ => rfl⟩
     simp only [installGen, KMaps.lpmAt]
     rw [if_pos (by unfold ringSlot MaxLpmNum MaxMatchSetLen; omega)]
     apply lookup_append_of_mem
@@ -834,5 +838,94 @@ theorem fieldsAgree_little (k : KEntry) (hc : k.cond.WF (2 ^ 32)) (hob : k.outbo
   case processName bs =>
     rw [msPname_enc]; simp only [KCond.value]; rw [pad16_of_length bs hc]; exact range16_map_byteAt bs hc
   case dscp v => unfold msDscp; rw [enc_head _ _ _ (by decide)]; simp [KCond.value, byteAt]; omega
+
+
+/-! ## key equivalence, the executable `Installed` check, slot deletion -/
+
+theorem lpmLookup_canon (l : List LpmKey) (x : Nat) :
+    lpmLookup l x = (l.map canonKey).any fun c => c.2 == (natBits 128 x).take c.1 := by
+  unfold lpmLookup canonKey
+  rw [List.any_map]; rfl
+
+theorem any_of_subset {α : Type} [BEq α] [LawfulBEq α] (f : α → Bool) (a b : List α)
+    (h : a.all (fun k => b.contains k) = true) (ha : a.any f = true) : b.any f = true := by
+  rw [List.any_eq_true] at ha ⊢
+  obtain ⟨k, hk, hf⟩ := ha
+  rw [List.all_eq_true] at h
+  have := h k hk
+  exact ⟨k, List.contains_iff_mem.mp this |> fun m => m, hf⟩
+
+theorem keysEquiv_lookup (a b : List LpmKey) (h : keysEquiv a b = true) (x : Nat) :
+    lpmLookup a x = lpmLookup b x := by
+  unfold keysEquiv at h
+  rw [Bool.and_eq_true] at h
+  obtain ⟨h1, h2⟩ := h
+  have s1 : (a.map canonKey).all (fun k => (b.map canonKey).contains k) = true := by
+    rw [List.all_map]; exact h1
+  have s2 : (b.map canonKey).all (fun k => (a.map canonKey).contains k) = true := by
+    rw [List.all_map]; exact h2
+  rw [lpmLookup_canon, lpmLookup_canon, Bool.eq_iff_iff]
+  exact ⟨any_of_subset _ _ _ s1, any_of_subset _ _ _ s2⟩
+
+theorem installedB_sound (m : KMaps) (start : Nat) (kp : List KEntry) (tries : List (List Prefix))
+    (h : installedB m start kp tries = true) : Installed m start kp tries := by
+  unfold installedB at h
+  simp only [Bool.and_eq_true, beq_iff_eq, decide_eq_true_eq, List.all_eq_true, List.mem_range] at h
+  obtain ⟨⟨⟨h1, h2⟩, h3⟩, h4⟩ := h
+  refine ⟨h1, h2, ?_, ?_⟩
+  · intro i hi
+    have := h3 i hi
+    rw [this, List.getElem?_eq_getElem hi]; rfl
+  · intro idx hidx
+    have := h4 idx hidx
+    rw [List.getElem?_eq_getElem hidx] at this
+    cases hl : m.lpmAt (ringSlot start idx) with
+    | none => rw [hl] at this; simp at this
+    | some keys =>
+      rw [hl] at this
+      exact ⟨keys, rfl, keysEquiv_lookup _ _ this⟩
+
+theorem lookup_filter_keep {β : Type} (l : List (Nat × β)) (k : Nat) (f : Nat → Bool) (hf : f k = true) :
+    (l.filter fun p => f p.1).lookup k = l.lookup k := by
+  induction l with
+  | nil => rfl
+  | cons a l ih =>
+    obtain ⟨k', v⟩ := a
+    by_cases hk : k = k'
+    · subst hk; simp [List.filter_cons, hf, List.lookup_cons]
+    · have hne : (k == k') = false := by simpa using hk
+      by_cases hfk : f k' = true
+      · simp [List.filter_cons, hfk, List.lookup_cons, hne, ih]
+      · simp [List.filter_cons, hfk, List.lookup_cons, hne, ih]
+
+/-- Deleting slots that the installed generation does not use keeps it installed. -/
+theorem delSlots_installed (m : KMaps) (start : Nat) (kp : List KEntry) (tries : List (List Prefix)) (slots : List Nat)
+    (h : Installed m start kp tries) (hs : ∀ idx, idx < tries.length → ringSlot start idx ∉ slots) :
+    Installed (m.delSlots slots) start kp tries := by
+  refine ⟨h.len, h.bound, h.rules, ?_⟩
+  intro idx hidx
+  obtain ⟨keys, hk, he⟩ := h.lpm idx hidx
+  refine ⟨keys, ?_, he⟩
+  unfold KMaps.lpmAt KMaps.delSlots at *
+  by_cases hb : ringSlot start idx < MaxLpmNum
+  · simp only [hb, if_true] at hk ⊢
+    rw [lookup_filter_keep _ _ (fun s => !slots.contains s)]
+    · exact hk
+    · simpa using hs idx hidx
+  · simp [hb] at hk
+
+theorem mem_genSlots (start count s : Nat) : s ∈ genSlots start count ↔ ∃ i, i < count ∧ s = ringSlot start i := by
+  unfold genSlots; simp [List.mem_map, List.mem_range, eq_comm]
+
+/-- `InheritLpmIndices`: with the reused-slot skip, the new generation stays installed whatever
+the superseded set `old` is — overlapping generations included. -/
+theorem inherit_installed (m : KMaps) (start : Nat) (kp : List KEntry) (tries : List (List Prefix)) (old : List Nat)
+    (h : Installed m start kp tries) :
+    Installed (inheritSlots m old (genSlots start tries.length)) start kp tries := by
+  apply delSlots_installed _ _ _ _ _ h
+  intro idx hidx hmem
+  rw [List.mem_filter] at hmem
+  have : ringSlot start idx ∈ genSlots start tries.length := (mem_genSlots _ _ _).mpr ⟨idx, hidx, rfl⟩
+  simp [this] at hmem
 
 end DaeVerif.C02
